@@ -767,3 +767,10 @@ def m_typed_builder_into_value(ex, st, args, dty, canon):
         r = call_fnlike(ex, st, f, [], cont)
         return NOTHING
     raise Inconclusive('typed-builder into_value on %r' % (v,))
+
+
+@pattern(r'^(std::)?(option::)?Option::<.*>::ok_or(::<.*>)?$')
+def m_option_ok_or(ex, st, args, dty, canon):
+    v = args[0]
+    d = ex.discr_of(st, v).t
+    return sym_enum(z3.If(d == 1, I(0), I(1)), {0: [payload(ex, st, v, 1, 0)], 1: [args[1]]}, 'Result')
